@@ -110,7 +110,9 @@ func (g *Gen) num(n int) uint64 {
 }
 
 var v4addrs = []string{"192.0.2.1", "198.51.100.7", "203.0.113.255", "10.1.2.3"}
-var v6addrs = []string{"2001:db8::1", "2001:db8:0:1::2", "fe80::1", "::1"}
+// (legal spellings that are not the canonical RFC 5952 text are part of the pool: what was
+// programmed is what must come back)
+var v6addrs = []string{"2001:db8::1", "2001:db8:0:1::2", "fe80::1", "::1", "2001:DB8::3", "2001:db8:0:0:0:0:0:4", "2001:0db8::5"}
 var macs = []string{"00:11:22:33:44:55", "AA:BB:CC:DD:EE:FF", "02:00:5e:10:00:01"}
 var ifnames = []string{"eth0", "Ethernet1/1", "port-channel 7"}
 
